@@ -4,7 +4,7 @@ package util
 
 // DeepCopy copies through a JSON round trip. Assumed: for the address types it is used
 // with, the copy is deeply equal to the source (no empty-but-non-nil slices involved).
-//@ func DeepCopy trusted noworld
+//@ func DeepCopy trusted reflective noworld
 //@   requires source != nil && dest != nil
 //@   ensures deepEqual(*dest, *source)
 //@   modifies *dest, new(model.FeatureAddressType)
